@@ -718,9 +718,10 @@ class SP(Robot):
             inverse_jacobian_transpose[:, i] = col
         inverse_jacobian = inverse_jacobian_transpose.T
 
-        #Restore original Values
+        #Restore original Values exactly as they were: this is a query, the state it found
+        #must not be re-validated (and possibly corrected to somewhere else) on the way out
         self.IK(top_plate_pos = old_top_plate_transform, 
-                bottom_plate_pos = old_bottom_plate_transform, protect = protect)
+                bottom_plate_pos = old_bottom_plate_transform, protect = True)
         return inverse_jacobian
 
     def jacobianBody(self, top_plate_pos : tm = None,
